@@ -307,7 +307,17 @@ pub(crate) fn load_toplevel_items(
     namespace: Rc<RefCell<NamespaceInfo>>,
 ) -> (Vec<Diagnostic>, Vec<SymbolName>) {
     let mut paths_seen = FxHashSet::default();
-    load_toplevel_items_(items, env, &mut paths_seen, namespace, false)
+    let mut cyclic_imports = vec![];
+    let res = load_toplevel_items_(
+        items,
+        env,
+        &mut paths_seen,
+        &mut cyclic_imports,
+        namespace,
+        false,
+    );
+    finish_cyclic_imports(cyclic_imports);
+    res
 }
 
 pub(crate) fn load_toplevel_items_with_stubs(
@@ -316,13 +326,53 @@ pub(crate) fn load_toplevel_items_with_stubs(
     namespace: Rc<RefCell<NamespaceInfo>>,
 ) -> (Vec<Diagnostic>, Vec<SymbolName>) {
     let mut paths_seen = FxHashSet::default();
-    load_toplevel_items_(items, env, &mut paths_seen, namespace, true)
+    let mut cyclic_imports = vec![];
+    let res = load_toplevel_items_(
+        items,
+        env,
+        &mut paths_seen,
+        &mut cyclic_imports,
+        namespace,
+        true,
+    );
+    finish_cyclic_imports(cyclic_imports);
+    res
+}
+
+/// A file that imports a file which is still being loaded (a cyclic
+/// import) only sees the definitions loaded so far. Now that
+/// everything is loaded, give those importers the public items they
+/// missed.
+fn finish_cyclic_imports(
+    cyclic_imports: Vec<(Rc<RefCell<NamespaceInfo>>, Rc<RefCell<NamespaceInfo>>)>,
+) {
+    for (current_ns, imported_ns) in cyclic_imports {
+        if Rc::ptr_eq(&current_ns, &imported_ns) {
+            continue;
+        }
+
+        let imported_ns = imported_ns.borrow();
+        for (sym, value) in &imported_ns.values {
+            // Only fill in what the importer missed: anything it has
+            // bound in the meantime (e.g. its own definition with
+            // the same name) stays.
+            if imported_ns.exported_syms.contains(sym)
+                && !current_ns.borrow().values.contains_key(sym)
+            {
+                current_ns
+                    .borrow_mut()
+                    .values
+                    .insert(sym.clone(), value.clone());
+            }
+        }
+    }
 }
 
 fn load_toplevel_items_(
     items: &[ToplevelItem],
     env: &mut Env,
     paths_seen: &mut FxHashSet<PathBuf>,
+    cyclic_imports: &mut Vec<(Rc<RefCell<NamespaceInfo>>, Rc<RefCell<NamespaceInfo>>)>,
     namespace: Rc<RefCell<NamespaceInfo>>,
     vivify_types: bool,
 ) -> (Vec<Diagnostic>, Vec<SymbolName>) {
@@ -474,6 +524,12 @@ fn load_toplevel_items_(
                     // again, but we do need to add the values to the
                     // current namespace.
                     let imported_ns = env.get_namespace(&abs_path).unwrap();
+                    if import_info.namespace_sym.is_none() {
+                        // The imported file may not have finished
+                        // loading, so copy its public items again
+                        // once it has.
+                        cyclic_imports.push((Rc::clone(&namespace), Rc::clone(&imported_ns)));
+                    }
                     insert_imported_namespace(
                         import_info.namespace_sym.as_ref(),
                         Rc::clone(&namespace),
@@ -526,6 +582,7 @@ fn load_toplevel_items_(
                     &imported_items,
                     env,
                     paths_seen,
+                    cyclic_imports,
                     Rc::clone(&destination_ns),
                     vivify_types,
                 );
@@ -637,6 +694,11 @@ fn insert_imported_namespace(
         }
         None => {
             let mut syms = vec![];
+
+            if Rc::ptr_eq(&current_ns, &imported_ns) {
+                // A file importing itself: everything is already here.
+                return syms;
+            }
 
             // Load all the public items into the current namespace.
             let imported_ns = imported_ns.borrow();
